@@ -702,7 +702,7 @@ fn run_bld(ws: &[&str]) -> Option<(String, Vec<String>)> {
     let calls: Vec<String> = calls.iter().map(|c| c.to_string()).collect();
     let _beat = Beating::start();
     let sh2 = sh.clone();
-    let res = std::thread::spawn(move || -> Result<(usize, usize, usize), String> {
+    let res = std::thread::spawn(move || -> Result<(usize, usize, usize, usize), String> {
         let sh = sh2;
         actix_rt::System::new().block_on(async move {
             // ports may be scarce when many checks run at once: wait for one
@@ -870,6 +870,8 @@ fn run_bld(ws: &[&str]) -> Option<(String, Vec<String>)> {
                 tokio::time::sleep(Duration::from_millis(200)).await;
             }
             let maxper = sh.maxper.load(Ordering::SeqCst);
+            // connections started once the released slots had their time to be refilled
+            let refilled = sh.started.load(Ordering::SeqCst);
             sh.release.store(true, Ordering::SeqCst);
             let t1 = std::time::Instant::now();
             while sh.done.load(Ordering::SeqCst) < n && t1.elapsed() < Duration::from_secs(60) {
@@ -883,13 +885,20 @@ fn run_bld(ws: &[&str]) -> Option<(String, Vec<String>)> {
             }
             // (dropping a TestServerHandle stops its server and joins its thread)
             drop(test_server);
-            Ok((sh.maxper.load(Ordering::SeqCst).max(maxper), started, done))
+            Ok((sh.maxper.load(Ordering::SeqCst).max(maxper), started, done, refilled))
         })
     })
     .join();
     let mut t3 = vec![];
     let real = match res {
-        Ok(Ok((maxper, started, done))) => {
+        Ok(Ok((maxper, started, done, refilled))) => {
+            // `rel=k`: each of the k slots freed at the plateau is taken by a waiting client (as far as clients are left)
+            // (the scenario releases at most as many connections as there are slots)
+            let plateau = workers.saturating_mul(limit).min(n);
+            let want_refilled = (plateau + rel.min(plateau)).min(n);
+            if rel > 0 && !big && refilled < want_refilled {
+                t3.push(("C03", format!("{rel} connection(s) ended at the plateau ({workers} worker(s), limit {limit}, {n} clients) but only {} of the {} clients that now fit were dispatched: a released slot is not refilled (no wake-up reached the accept thread)", refilled, want_refilled)));
+            }
             if maxper > limit {
                 t3.push(("C02", format!("{maxper} connections in progress on one worker, max_concurrent_connections is {limit} (builder calls: {})", kv(ws, "calls").unwrap_or(""))));
             }
@@ -2016,6 +2025,10 @@ fn gen(a: &Args) {
         }
         // the limit is not disturbed by the other builder options, whatever their values and order (seed15 C03-30 stored
         // `worker_max_blocking_threads` into the connection limit)
+        // a released slot is refilled — through the real `ServerWorker::start` of a real server (seed17 C03-33: the
+        // worker's notifications carried the number of services instead of its index)
+        writeln!(w, "bld workers=1 limit=1 n=3 calls=workers,limit rel=2").unwrap();
+        writeln!(w, "bld workers=2 limit=1 n=5 calls=limit,workers,listen rel=2").unwrap();
         writeln!(w, "bld workers=1 limit=3 n=5 calls=limit,blocking:1,workers").unwrap();
         writeln!(w, "bld workers=2 limit=2 n=6 calls=workers,limit,backlog:1,timeout:1,blocking:1").unwrap();
         writeln!(w, "bld workers=1 limit=18446744073709551616 n=3 calls=workers,limit").unwrap();
